@@ -3,7 +3,7 @@
    the crop routine (C10Model.v) returns tables whose expansion is the k-prefix of the input's expansion. *)
 From V.lib Require Import Base.
 From V.c09 Require Import C09Model C09Spec C09Theorems.
-From V.c10 Require Import C10Model C10RlProofs C10CttsProofs C10StscProofs C10ConsProofs C10EndProofs.
+From V.c10 Require Import C10Model C10RlProofs C10CttsProofs C10StscProofs C10ConsProofs C10EndProofs C10LayoutProofs.
 
 (* the hypotheses are satisfiable: C09's 7-sample example table with a cut inside a run, a chunk and a ctts entry *)
 Example ex_crop : consistent ex_tb = true /\
@@ -147,3 +147,29 @@ Theorem C10_stsc_pinned_refuted :
   crop_stsc cs_box 9 = Ok (mkStsc [mkEntry 1 4 1; mkEntry 2 3 5; mkEntry 3 2 8] 0 [2; 1; 1]).
 Proof. vm_compute. repeat split. Qed.
 Print Assumptions C10_stsc_pinned_refuted.
+
+(* fillTrakOutsAndByteRanges, any number of tracks with arbitrary chunk interleaving: when the loop ends, every track
+   has received one new offset per kept chunk, and the new mdat payload (concatenation of the byte ranges, merged or not)
+   holds at (new offset - firstOffset) exactly the bytes the input file holds at the old chunk offset, for the kept
+   (possibly truncated) size of the chunk.  Hypotheses (static_ok): consistent tables, non-zero track ids, chunk offsets
+   in [1, 2^62), chunks inside the file; 2^62 + total sample bytes < 2^64. *)
+Theorem C10_layout : forall file ts0 fuel ts' ranges first',
+  Forall (static_ok file) ts0 -> Forall (fun t => ts_next t = 1 /\ ts_offsets t = []) ts0 ->
+  4611686018427387904 + pot ts0 < 18446744073709551616 ->
+  fill_loop fuel ts0 [] 0 0 = Ok (ts', ranges, first') ->
+  map static ts' = map static ts0 /\
+  Forall (fun t => static_ok file t /\ ts_next t = ts_last_chunk t + 1 /\ lenN (ts_offsets t) = ts_last_chunk t /\
+                   forall c, 1 <= c <= ts_last_chunk t ->
+                             exists no, nthN (ts_offsets t) (c - 1) = Some no /\
+                                        chunk_placed file (out_bytes file ranges) first' t c no) ts'.
+Proof. exact layout_correct. Qed.
+Print Assumptions C10_layout.
+
+(* ... hence every kept sample n <= k_t of every track: sub out (new_offset n) (size n) = sub in (old_offset n) (size n) *)
+Theorem C10_layout_samples : forall file out first t c no n, static_ok file t ->
+  chunk_placed file out first t c no -> S_chunk_of (ts_tb t) n = Some c -> 1 <= n <= ts_last_sample t ->
+  n <= nsamples (ts_tb t) ->
+  exists off sz, S_offset_of (ts_tb t) n = Some off /\ S_size (ts_tb t) n = Some sz /\
+    sublist out (no - first + S_total_size (ts_tb t) (S_first_in_chunk (ts_tb t) c) (n - 1)) sz = sublist file off sz.
+Proof. exact sample_placed. Qed.
+Print Assumptions C10_layout_samples.
